@@ -110,9 +110,12 @@ def _dataclass_parameters(class_: Class) -> list[Parameter]:
                 continue
 
             # Determine parameter kind.
+            # An explicit `field(kw_only=...)` takes precedence over the class-level
+            # `kw_only` argument and over a preceding `KW_ONLY` sentinel.
+            field_kw_only = field_args.get("kw_only")
             kind = (
                 ParameterKind.keyword_only
-                if kw_only or field_args.get("kw_only") == "True"
+                if field_kw_only == "True" or (kw_only and field_kw_only != "False")
                 else ParameterKind.positional_or_keyword
             )
 
